@@ -406,7 +406,7 @@ PROPS["C17"]["stages"].append(dict(name="fault-manifest", driver="fault", flavou
                                    quick=["--cfgs", "B1;B1,reuse=1", "--len", "2", "--scripted", "1"],
                                    thorough=["--cfgs", "B1;B1,reuse=1", "--len", "3", "--scripted", "1"]))
 PROPS["C17"]["rule"] += ("; fault stage: for every failed or short write(2) and every failed rename(2) of every history, after every operation that returns OK the MANIFEST that CURRENT names "
-                         "(decoded independently) folds to exactly the file set the database reports")
+                         "(decoded independently) folds to exactly the file set the database reports; for EVERY fault site, at the kill point and after the clean close CURRENT names a MANIFEST that exists")
 PROPS["C17"]["assumptions"] = PROPS["C17"]["assumptions"] + FAULT_ASSUME
 
 # crash enumeration from NON-INITIAL states: a preparation run (--base) builds the state, crash points start after it
